@@ -6,8 +6,8 @@
 (*                  (stream errors after k responses) | "timeout" (store   *)
 (*                  stops answering after k responses)                     *)
 (*   in.strategy    "ABORT" | "WARN"                                       *)
-(*   in.cfgs[k]     [retr, buf, rb, flag]  (flag: abort asked through the  *)
-(*                  deprecated partial_response_disabled field)            *)
+(*   in.cfgs[k]     [retr, buf, rb, flag, via]  (flag: abort asked through *)
+(*                  the deprecated partial_response_disabled field)        *)
 (*   outs[k]        what configuration k observed on a real ProxyStore:    *)
 (*                  err ("" = success), nwarn, named[i] (some warning      *)
 (*                  names store i), series                                 *)
@@ -15,8 +15,12 @@
 (***************************************************************************)
 EXTENDS TraceLib, ProxyFanout
 
+(* via = "proxy": ProxyStore.Series with the strategy in the request; via = "querier": through   *)
+(* query.Querier.Select with partialResponse = (strategy = "WARN"); there the chunks are decoded *)
+(* by the querier and only the label sets are recorded, so the chunk clause is not judged.        *)
 Judge(e) ==
-    UNION { C06Clauses(e.in, e.in.strategy, e.outs[k].err, e.outs[k].nwarn, e.outs[k].named, e.outs[k].series) : k \in DOMAIN e.outs }
+    UNION { C06Clauses(e.in, e.in.strategy, e.outs[k].err, e.outs[k].nwarn, e.outs[k].named, e.outs[k].series)
+              \ (IF e.outs[k].via = "querier" THEN {"healthy-chunks-returned"} ELSE {}) : k \in DOMAIN e.outs }
 
 VARIABLE l
 TraceInit == l = 1
